@@ -33,7 +33,7 @@ ASSUMPTIONS = [
     'SimPool models the fork start method with chunk size 1 as the code uses it; spawn is not modelled',
     'ENOSPC/EIO on output are not injected: the statement is about bad input files',
     'of a damaged or foreign file itself nothing is demanded beyond: a result is reported, no exception escapes, no effect on other files',
-    'scheduling points are the intercepted file-system calls (open, close of written files, makedirs, listdir, getsize); interleaving '
+    'scheduling points are the intercepted file-system calls (open, close of written files, makedirs, mkdir, listdir, getsize, rename/replace, remove/unlink); interleaving '
     'inside buffered write() calls is not explored',
     'step budget per file 6e6 + 4000*len(file) monitored events (PY_START + JUMP)',
 ]
@@ -368,6 +368,10 @@ def candidates(scenario):
         if run['mode'] == 'pool':
             if run.get('schedule') != 'fifo':
                 yield dict(scenario, runs=runs[:k] + [dict(run, schedule='fifo')] + runs[k + 1:])
+            if isinstance(run.get('schedule'), list) and len(run['schedule']) > 4:
+                sch = run['schedule']
+                yield dict(scenario, runs=runs[:k] + [dict(run, schedule=sch[:len(sch) // 2])] + runs[k + 1:])
+                yield dict(scenario, runs=runs[:k] + [dict(run, schedule=[min(c, 1) for c in sch])] + runs[k + 1:])
             for j in (1, 2):
                 if run['jobs'] > j:
                     yield dict(scenario, runs=runs[:k] + [dict(run, jobs=j)] + runs[k + 1:])
